@@ -51,14 +51,24 @@ func load(pkgPaths []string) (*Loaded, error) {
 		pkgByPath[p.Pkg.Path()] = p.Pkg
 	}
 	l := &Loaded{prog: prog, pkgs: pkgs, spkgs: spkgs, db: newDB(), funcs: map[string]*ssa.Function{}}
-	for _, p := range pkgs {
-		if len(p.GoFiles) == 0 {
-			continue
+	// contract files of the listed packages and of every boxo package they import
+	var cerr error
+	var cps []*packages.Package
+	packages.Visit(pkgs, nil, func(p *packages.Package) {
+		if len(p.GoFiles) == 0 || !strings.HasPrefix(p.PkgPath, "github.com/ipfs/boxo") {
+			return
 		}
+		cps = append(cps, p)
+	})
+	sort.Slice(cps, func(i, j int) bool { return cps[i].PkgPath < cps[j].PkgPath })
+	for _, p := range cps {
 		dir := filepath.Dir(p.GoFiles[0])
-		if err := l.db.loadDir(dir, p.PkgPath); err != nil {
-			return nil, err
+		if err := l.db.loadDir(dir, p.PkgPath); err != nil && cerr == nil {
+			cerr = err
 		}
+	}
+	if cerr != nil {
+		return nil, cerr
 	}
 	for fn := range ssautil.AllFunctions(prog) {
 		if fn.Pkg == nil && fn.Parent() == nil && fn.Origin() == nil {
